@@ -287,6 +287,28 @@ pub fn generate(s: &mut Session, thorough: bool) -> bool {
                     }
                 }
             }
+            // one chunk of a multi-chunk message in a bank named after another board (every chunk
+            // in turn): must be rejected in every order of the banks (seed C11-3 accepted it when a
+            // correctly named chunk of the message arrived first)
+            if let Some(p) = spec.pads.first() {
+                let boards = c10::pwb_boards();
+                let (bname, mac, dev) = (boards[p.board].0.clone(), boards[p.board].1, boards[p.board].2);
+                let pc = c10::pc_name(&bname);
+                let pay = c10::pwb_payload(&mut rng, mac, b'A' + p.chip, p.req, &p.sent);
+                let size = (pay.len() / 3).max(60);
+                let chunks = c10::chunk_banks(&mut rng, &pc, &pay, size, dev, p.chip);
+                for which in 0..chunks.len() {
+                    let mut other = pc.clone();
+                    while other == pc {
+                        other = c10::pc_name(&boards[rng.below(boards.len() as u64) as usize].0);
+                    }
+                    let mut banks: Banks = base.iter().filter(|(n, _)| !n.starts_with("PC")).cloned().collect();
+                    let mut cs = chunks.clone();
+                    cs[which].0 = other;
+                    banks.extend(cs);
+                    check_event(s, &mut rng, &mut cx, "misnamed-chunk", run, &banks);
+                }
+            }
             // two TRG banks with different timestamps
             {
                 let mut banks = base.clone();
